@@ -123,6 +123,291 @@ def _fold_consumers(prog, g):
     return folds, early
 
 
+def _rec_field(o, rec_types):
+    """(owner, field, rest) if origin `o` is a field of a validated record: the object-insensitive field abstraction, or any
+    value whose access path ends in a field of a record type (`next()` -> Some.0 -> .key)."""
+    from ..core import _last_local_field
+    if o.kind == "field" and o.info[0] in rec_types:
+        return (o.info[0], o.info[1], tuple(o.path))
+    fi = _last_local_field(o.path) if o.path else None
+    if fi is not None and o.path[fi][2] in rec_types:
+        return (o.path[fi][2], o.path[fi][1], tuple(o.path[fi + 1:]))
+    return None
+
+
+def _all_field(origins, rec_types, name):
+    if not origins:
+        return False
+    for x in origins:
+        f = _rec_field(x, rec_types)
+        if f is None or f[1] != name or f[2]:
+            return False
+    return True
+
+
+def make_labeler(w, cl, g, kidx):
+    """Symbolic labels of the branches of a per-record decision (`cl`: the fold closure, a filter / filter_map stage, or the
+    body of a scanning loop): key comparison, tombstone test, integrity parse — in whichever of the equivalent spellings
+    (`==`/`!=`, `if let`/`match`/`is_none()`/`?`, `parse()`/`parse().ok()`)."""
+    prog = w.prog
+    rec_types = w.roles.record_types
+
+    def is_entry_key(s_):
+        return _all_field(s_, rec_types, "key")
+
+    def is_lookup_key(s_):
+        return bool(s_) and is_param(prog, s_, g, kidx)
+
+    def parse_of_integrity(x):
+        if not (x.kind == "call" and x.callee is not None and x.callee.path == "core::str::<impl str>::parse"):
+            return None
+        a = prog.resolve_op(x.body, x.term.args[0], IDENT, x.blk)
+        return bool(a) and all((_rec_field(y, rec_types) or (None, None))[1] == "integrity" for y in a)
+
+    def label_switch(blk_, term):
+        if term.discr.place is None:
+            return None
+        for o in prog.resolve_pl(cl, term.discr.place, IDENT):
+            neg = False
+            if o.kind == "unop" and o.info.j["op"] == "Not":
+                inner = prog.resolve_op(cl, o.info.ops[0], IDENT, o.blk)
+                if len(inner) == 1:
+                    o = next(iter(inner))
+                    neg = True
+            t1, t0 = (0, 1) if neg else (1, 0)
+            if o.kind == "call" and o.callee is not None and o.callee.path in ("std::cmp::PartialEq::eq", "std::cmp::PartialEq::ne"):
+                eqv, nev = (t1, t0) if o.callee.path.endswith("::eq") else (t0, t1)
+                a = prog.resolve_op(o.body, o.term.args[0], IDENT, o.blk)
+                c = prog.resolve_op(o.body, o.term.args[1], IDENT, o.blk)
+                if (is_entry_key(a) and is_lookup_key(c)) or (is_entry_key(c) and is_lookup_key(a)):
+                    return ("key_eq", {switch_target(term, eqv): True, switch_target(term, nev): False})
+                return ("key_eq?", {switch_target(term, eqv): "other-comparison:%s" % sorted(map(repr, a | c))[:2], switch_target(term, nev): False})
+            if o.kind == "call" and o.callee is not None and o.callee.path in ("std::option::Option::<T>::is_none", "std::option::Option::<T>::is_some"):
+                a = prog.resolve_op(o.body, o.term.args[0], IDENT, o.blk)
+                if _all_field(a, rec_types, "integrity"):
+                    some_v, none_v = (t1, t0) if o.callee.path.endswith("is_some") else (t0, t1)
+                    return ("integrity", {switch_target(term, some_v): "Some", switch_target(term, none_v): "None"})
+            if o.kind == "discr":
+                pl = o.info.place
+                src = prog.resolve_lifted(cl, pl.local, norm_path(pl), IDENT, at=o.blk)
+                if _all_field(src, rec_types, "integrity"):
+                    return ("integrity", {switch_target(term, VIDX["Some"]): "Some", switch_target(term, VIDX["None"]): "None"})
+                if src and all(parse_of_integrity(x) is not None and not x.path for x in src):
+                    okp = all(parse_of_integrity(x) for x in src)
+                    return ("parse" if okp else "parse?", {switch_target(term, VIDX["Ok"]): "Ok", switch_target(term, VIDX["Err"]): "Err"})
+                if src and all(x.kind == "call" and x.callee is not None and x.callee.path == "std::result::Result::<T, E>::ok" and not x.path for x in src):
+                    inner = set()
+                    for x in src:
+                        inner |= prog.resolve_op(x.body, x.term.args[0], IDENT, x.blk)
+                    if inner and all(parse_of_integrity(y) for y in inner):
+                        return ("parse", {switch_target(term, VIDX["Some"]): "Ok", switch_target(term, VIDX["None"]): "Err"})
+                if src and all(x.kind == "call" and x.callee is not None and x.callee.path == "std::ops::Try::branch" and not x.path for x in src):
+                    inner = set()
+                    for x in src:
+                        inner |= prog.resolve_op(x.body, x.term.args[0], OKFLOW, x.blk)
+                    if _all_field(inner, rec_types, "integrity"):
+                        return ("integrity", {switch_target(term, VIDX["Continue"]): "Some", switch_target(term, VIDX["Break"]): "None"})
+                    if inner and all(parse_of_integrity(y) for y in inner):
+                        return ("parse", {switch_target(term, VIDX["Continue"]): "Ok", switch_target(term, VIDX["Break"]): "Err"})
+        return ("?", {s_: "?%d" % i for i, s_ in enumerate(prog.cfg(cl).succ[blk_.i])})
+    return label_switch
+
+
+def _metadata_from_entry(w, cl, operand_or_term, rec_types):
+    """The term is a Metadata built field by field from the same-named fields of the record (integrity: its parsed string)."""
+    payload = operand_or_term if isinstance(operand_or_term, tuple) else w.sym.of_operand(cl, operand_or_term)
+    if payload[0] == "alt":
+        alts = [a for a in payload[1] if a[0] == "agg" and a[1] == "index::Metadata"]
+        if len(alts) == 1:
+            payload = alts[0]
+    if not (payload[0] == "agg" and payload[1] == "index::Metadata"):
+        return None
+    from ..symval import walk
+    for nm, tm in dict(payload[3]).items():
+        if nm == "integrity":
+            if not any(st[0] == "call" and st[1] == "core::str::<impl str>::parse" for st in walk(tm)):
+                return False
+        else:
+            flds = [st for st in walk(tm) if st[0] == "field" and st[1] in rec_types] if tm[0] != "field" else [tm]
+            if not (tm[0] == "field" and tm[1] in rec_types and tm[2] == nm) and not (
+                    len(flds) == 0 and tm[0] in ("call", "param", "arg") and tm[3] and tm[3][-1][:2] == ("f", nm)):
+                return False
+    return True
+
+
+def _closure_or_fn(prog, term):
+    """Body of the closure / crate function that the symbolic term names."""
+    if term[0] == "agg":
+        return prog.by_path.get(term[1])
+    if term[0] == "fn" and term[1] in prog.fns and not prog.fns[term[1]].outer.is_async:
+        return prog.fns[term[1]].body
+    return None
+
+
+def _state_action(w, cl, blk_, kind, obj, rec_types, wrap):
+    """What a definition of the per-record result says: `wrap` Some-levels around the new lookup state.
+    wrap=1 (filter_map stage: Option<Option<Metadata>>): None -> keep, Some(None) -> clear, Some(Some(m)) -> replace.
+    wrap=0 (scanning loop assigning the lookup result): None -> clear, Some(m) -> replace."""
+    if kind == "call" and obj.callee is not None and obj.callee.path == "std::ops::FromResidual::from_residual":
+        return "keep-acc" if wrap == 1 else "clear"
+    if kind != "assign":
+        return "other"
+    rv = obj.rv
+    if rv.k == "agg" and rv.j.get("path", "").endswith("Option"):
+        if rv.j["variant"] == "None":
+            return "keep-acc" if wrap == 1 else "clear"
+        t = w.sym.of_operand(cl, rv.ops[0])
+        if wrap == 1:
+            if t[0] == "agg" and t[1].endswith("Option"):
+                if t[2] == "None":
+                    return "clear"
+                inner = dict(t[3]).get("0") if t[3] else None
+                if inner is None and t[3]:
+                    inner = t[3][0][1]
+                m = _metadata_from_entry(w, cl, inner, rec_types) if inner is not None else None
+                return "replace-from-entry" if m else ("replace-from-other" if m is False else "some-other")
+            return "some-other"
+        m = _metadata_from_entry(w, cl, t, rec_types)
+        return "replace-from-entry" if m else ("replace-from-other" if m is False else "some-other")
+    return "other"
+
+
+def _try_last_form(cfg, w, rep, lf, g, kidx, b, blk, t, key, stream_ok):
+    """`records.into_iter().filter(|r| r.key == key).filter_map(state).last().flatten()`: the last record that says
+    something about the key decides — the same decision table as the fold, spread over two stages."""
+    prog = w.prog
+    rec_types = w.roles.record_types
+    it = w.sym.of_operand(b, t.args[0])
+    if not (it[0] == "call" and it[1].endswith("Iterator::filter_map") and len(it[2]) == 2):
+        return False
+    f0 = it[2][0]
+    if not (f0[0] == "call" and f0[1].endswith("Iterator::filter") and len(f0[2]) == 2):
+        return False
+    src, clf_t, st_t = f0[2][0], f0[2][1], it[2][1]
+    clf, stf = _closure_or_fn(prog, clf_t), _closure_or_fn(prog, st_t)
+    if clf is None or stf is None:
+        return False
+    if not stream_ok(src):
+        rep.violation("b-stream:%s" % key, "lookup `%s` does not scan the full validated record stream of bucket_path(cache, key): %s" % (
+            short(lf.path), term_str(src)[:140]), loc=span_str(t.span), config=cfg, rule="b-full-traversal")
+    else:
+        rep.ob(cfg, "b-stream", key, "`%s` takes the last deciding record of every validated record of bucket_path(cache, key)" % short(lf.path))
+    # stage 1: keep exactly the records of the key
+    lab1 = make_labeler(w, clf, g, kidx)
+
+    def cls1(blk_, kind, i, obj):
+        if kind == "call" and obj.callee is not None and obj.callee.path in ("std::cmp::PartialEq::eq", "std::cmp::PartialEq::ne"):
+            a = prog.resolve_op(clf, obj.args[0], IDENT, blk_)
+            c = prog.resolve_op(clf, obj.args[1], IDENT, blk_)
+            ek = lambda s_: _all_field(s_, rec_types, "key")
+            lk = lambda s_: bool(s_) and is_param(prog, s_, g, kidx)
+            if (ek(a) and lk(c)) or (ek(c) and lk(a)):
+                return "keep-iff-key-eq" if obj.callee.path.endswith("::eq") else "keep-iff-key-ne"
+            return "keep-iff-other-comparison"
+        if kind == "assign" and obj.rv.k == "use" and obj.rv.ops[0].is_const:
+            return "keep" if obj.rv.ops[0].const_val is True else "drop"
+        return "other"
+    try:
+        r1 = rows_as_set(enumerate_rows(prog, clf, lab1, cls1))
+        lab2 = make_labeler(w, stf, g, kidx)
+        r2 = rows_as_set(enumerate_rows(prog, stf, lab2, lambda blk_, kind, i, obj: _state_action(w, stf, blk_, kind, obj, rec_types, 1), sensitive=True))
+    except TooComplex as e:
+        rep.violation("b-idiom:%s" % key, "UNRECOGNISED-IDIOM: the stages of the lookup `%s` are not small acyclic decisions (%s)" % (short(lf.path), e),
+                      loc=span_str(t.span), config=cfg, rule="b-decision-table")
+        return True
+    ok1 = r1 in ({((), "keep-iff-key-eq")}, {((("key_eq", True),), "keep"), ((("key_eq", False),), "drop")})
+    rows = {((("key_eq", False),), "keep-acc")} | {(tuple(sorted(d + (("key_eq", True),))), a) for d, a in r2}
+    if ok1 and rows == ORACLE:
+        rep.ob(cfg, "b-decision-table", key, "`%s`: filter keeps exactly the key's records; per record: tombstone → clear; parses → replace from this record; unparsable → passed over; the last one decides" % short(lf.path))
+    else:
+        rep.violation("b-table:%s" % key,
+                      "lookup `%s` does not implement last-valid-record-wins: key filter rows %s; unexpected rows %s; missing rows %s" % (
+                          short(lf.path), sorted(map(str, r1))[:2], sorted(map(str, rows - ORACLE))[:3], sorted(map(str, ORACLE - rows))[:3]),
+                      loc=stf.loc(), config=cfg, rule="b-decision-table")
+    # the lookup returns flatten(last(..))
+    body = g.body
+    ret = prog.resolve_lifted(body, 0, (("v", "Ok"), ("f", "0")), IDENT) if g is lf else prog.resolve_lifted(body, 0, (), IDENT)
+    okr = bool(ret)
+    for x in ret:
+        if not (x.kind == "call" and x.callee is not None and re.search(r"Option::<.*>::flatten$", x.callee.path) and not x.path):
+            okr = False
+            continue
+        a0 = prog.resolve_op(x.body, x.term.args[0], IDENT, x.blk)
+        if not (a0 and all(y.kind == "call" and y.term is t for y in a0)):
+            okr = False
+    if okr:
+        rep.ob(cfg, "b-returns-fold", key, "`%s` returns flatten(last(..)): nothing found or a tombstone last → None" % short(lf.path))
+    else:
+        rep.violation("b-returns:%s" % key, "`%s` does not return the flattened last deciding record: %s" % (short(lf.path), sorted(map(repr, ret))[:2]),
+                      loc=body.loc(), config=cfg, rule="b-decision-table")
+    return True
+
+
+def _try_reverse_scan_form(cfg, w, rep, lf, key, stream_ok):
+    """`for r in records.into_iter().rev() { other key → continue; tombstone → return None; parses → return Some(r);
+    unparsable → continue }  None`: the first deciding record from the end is the last deciding record — the same table."""
+    prog = w.prog
+    rec_types = w.roles.record_types
+    body = lf.body
+    cf = prog.cfg(body)
+    nexts = [(blk, t) for blk, t in body.calls() if t.callee is not None and blk.i in cf.live() and not blk.cleanup and
+             re.search(r"^<std::iter::Rev<.*> as std::iter::Iterator>::next$", t.callee.rpath or "")]
+    if len(nexts) != 1:
+        return False
+    nblk, nt = nexts[0]
+    recv = w.sym.of_operand(body, nt.args[0])
+    from ..symval import walk
+    revs = [st for st in walk(recv) if st[0] == "call" and st[1].endswith("Iterator::rev")]
+    if len(revs) != 1 or not revs[0][2]:
+        return False
+    loops = [(h, bl) for h, bl in cf.loops() if nblk.i in bl]
+    if not loops:
+        return False
+    h, bl = max(loops, key=lambda x: len(x[1]))
+    # the switch on next()'s result
+    some_t = none_t = None
+    for sb, st_ in switches_on_discr(prog, body, nt.dest.local, norm_path(nt.dest)) if nt.dest is not None else []:
+        some_t, none_t = switch_target(st_, VIDX["Some"]), switch_target(st_, VIDX["None"])
+    if some_t is None:
+        return False
+    if not stream_ok(revs[0][2][0]):
+        rep.violation("b-stream:%s" % key, "lookup `%s` does not scan the full validated record stream of bucket_path(cache, key): %s" % (
+            short(lf.path), term_str(revs[0][2][0])[:140]), loc=span_str(nt.span), config=cfg, rule="b-full-traversal")
+    else:
+        rep.ob(cfg, "b-stream", key, "`%s` scans every validated record of bucket_path(cache, key) from the newest to the oldest" % short(lf.path))
+    # the local that carries the lookup's answer: the payload of the Ok(..) that is returned
+    res_local = None
+    for kind, blk_, i, d, obj in prog.idx(body).defs.get(0, []):
+        if not d and kind == "assign" and obj.rv.k == "agg" and obj.rv.j.get("variant") == "Ok" and obj.rv.ops and obj.rv.ops[0].place is not None \
+                and not obj.rv.ops[0].place.proj:
+            res_local = obj.rv.ops[0].place.local
+    if res_local is None:
+        rep.violation("b-idiom:%s" % key, "UNRECOGNISED-IDIOM: reverse-scanning lookup `%s` does not return Ok(<one result variable>)" % short(lf.path),
+                      loc=body.loc(), config=cfg, rule="b-decision-table")
+        return True
+    lab = make_labeler(w, body, lf, 1)
+    try:
+        per = rows_as_set(enumerate_rows(prog, body, lab, lambda blk_, kind, i, obj: _state_action(w, body, blk_, kind, obj, rec_types, 0),
+                                         start=some_t, stop_blocks={h}, ret_local=res_local, sensitive=True))
+        end = rows_as_set(enumerate_rows(prog, body, lab, lambda blk_, kind, i, obj: _state_action(w, body, blk_, kind, obj, rec_types, 0),
+                                         start=none_t, stop_blocks={h}, ret_local=res_local, sensitive=True))
+    except TooComplex as e:
+        rep.violation("b-idiom:%s" % key, "UNRECOGNISED-IDIOM: the loop body of the reverse-scanning lookup `%s` is not a small acyclic decision (%s)" % (short(lf.path), e),
+                      loc=span_str(nt.span), config=cfg, rule="b-decision-table")
+        return True
+    # a path that goes round the loop without an answer passes the record over (= the fold keeping its accumulator)
+    rows = {(d, "keep-acc" if a is None else a) for d, a in per}
+    if rows == ORACLE and end == {((), "clear")}:
+        rep.ob(cfg, "b-decision-table", key, "`%s` scans from the newest record: other key / unparsable → next; tombstone → None; parses → this record; exhausted → None" % short(lf.path))
+        rep.ob(cfg, "b-returns-fold", key, "`%s` returns the scan's answer" % short(lf.path))
+    else:
+        rep.violation("b-table:%s" % key,
+                      "lookup `%s` does not implement last-valid-record-wins: unexpected rows %s; missing rows %s; after the last record: %s" % (
+                          short(lf.path), sorted(map(str, rows - ORACLE))[:3], sorted(map(str, ORACLE - rows))[:3], sorted(map(str, end))[:2]),
+                      loc=span_str(nt.span), config=cfg, rule="b-decision-table")
+    return True
+
+
 def check_find(cfg, w, rep, lf):
     prog = w.prog
     key = fn_key(lf)
@@ -145,6 +430,21 @@ def check_find(cfg, w, rep, lf):
             g, sidx, kidx, helper_call = cands[0]
             folds, early = _fold_consumers(prog, g)
     body = g.body
+
+    def stream_ok(term_):
+        if g is lf:
+            return _reader_stream_ok(w, lf, term_)
+        base = term_
+        while base[0] == "call" and base[1].endswith("into_iter") and base[2]:
+            base = base[2][0]
+        return base == ("param", g.path, sidx, ())
+    lasts = [(b, blk, t) for b, blk, t in folds if t.callee.path.endswith("Iterator::last")]
+    if len(folds) == 1 and lasts and not early:
+        if _try_last_form(cfg, w, rep, lf, g, kidx, lasts[0][0], lasts[0][1], lasts[0][2], key, stream_ok):
+            return
+    if not folds and g is lf and [1 for b, blk, t in early if t.callee.path.endswith("::next")] == [1] * len(early) and early:
+        if _try_reverse_scan_form(cfg, w, rep, lf, key, lambda term_: _reader_stream_ok(w, lf, term_)):
+            return
     if early:
         for b, blk, t in early:
             rep.violation("b-early:%s" % key, "lookup `%s` consumes the record stream with the early-terminating `%s`: a later record for the key would be ignored" % (
@@ -203,38 +503,7 @@ def check_find(cfg, w, rep, lf):
         return
     rec_types = R.record_types
 
-    def label_switch(blk_, term):
-        if term.discr.place is None:
-            return None
-        for o in prog.resolve_pl(cl, term.discr.place, IDENT):
-            if o.kind == "call" and o.callee is not None and o.callee.path in ("std::cmp::PartialEq::eq", "std::cmp::PartialEq::ne"):
-                eqv, nev = (1, 0) if o.callee.path.endswith("::eq") else (0, 1)
-                a = prog.resolve_op(o.body, o.term.args[0], IDENT, o.blk)
-                c = prog.resolve_op(o.body, o.term.args[1], IDENT, o.blk)
-                sides = [a, c]
-
-                def is_entry_key(s):
-                    return s and all(x.kind == "field" and x.info[0] in rec_types and x.info[1] == "key" and not x.path for x in s)
-
-                def is_lookup_key(s):
-                    return s and is_param(prog, s, g, kidx)
-                if (is_entry_key(a) and is_lookup_key(c)) or (is_entry_key(c) and is_lookup_key(a)):
-                    return ("key_eq", {switch_target(term, eqv): True, switch_target(term, nev): False})
-                return ("key_eq?", {switch_target(term, eqv): "other-comparison:%s" % sorted(map(repr, a | c))[:2], switch_target(term, nev): False})
-            if o.kind == "discr":
-                pl = o.info.place
-                src = prog.resolve_lifted(cl, pl.local, norm_path(pl), IDENT, at=o.blk)
-                if src and all(x.kind == "field" and x.info[0] in rec_types and x.info[1] == "integrity" and not x.path for x in src):
-                    return ("integrity", {switch_target(term, VIDX["Some"]): "Some", switch_target(term, VIDX["None"]): "None"})
-                if src and all(x.kind == "call" and x.callee is not None and x.callee.path == "core::str::<impl str>::parse" and not x.path for x in src):
-                    # what is parsed must be the record's integrity string
-                    okp = True
-                    for x in src:
-                        a = prog.resolve_op(x.body, x.term.args[0], IDENT, x.blk)
-                        if not (a and all(y.kind == "field" and y.info[1] == "integrity" for y in a)):
-                            okp = False
-                    return ("parse" if okp else "parse?", {switch_target(term, VIDX["Ok"]): "Ok", switch_target(term, VIDX["Err"]): "Err"})
-        return ("?", {s: "?%d" % i for i, s in enumerate(prog.cfg(cl).succ[blk_.i])})
+    label_switch = make_labeler(w, cl, g, kidx)
 
     def classify_ret(blk_, kind, i, obj):
         if kind == "assign":
